@@ -34,6 +34,28 @@ def impl(case):
     return io
 
 SLD_MSG = 'compiled-code model and SLD reference differ'
+HIGH_RECURSION_LIMIT = 30000
+
+def _impl_high_limit(case):
+    import sys
+    lim = sys.getrecursionlimit()
+    try:
+        sys.setrecursionlimit(HIGH_RECURSION_LIMIT)
+        return semcheck.impl(case)
+    finally:
+        sys.setrecursionlimit(lim)
+
+def rerun_with_high_recursion_limit(case):
+    """the engine walks a list recursively (get_value, unify), so a findall/3 result of about a thousand instances hits CPython's
+    default recursion limit - a resource limit of the host that the model does not have.  A query that ended by RecursionError
+    although the model finishes is run once more, in a process of its own, with a 30x limit before the difference is believed;
+    an unbounded recursion still ends by RecursionError there."""
+    import multiprocessing, concurrent.futures as cf
+    try:
+        with cf.ProcessPoolExecutor(1, mp_context=multiprocessing.get_context('fork')) as ex:
+            return ex.submit(_impl_high_limit, case).result(timeout=120)
+    except Exception:
+        return None
 
 def compare(case, io, mo):
     """semcheck.compare, query by query; a difference between the two Coq semantics (compiled-code model vs the auxiliary SLD
@@ -46,7 +68,16 @@ def compare(case, io, mo):
         if k >= len(mo):
             break
         iq = io['queries'][qi]
-        r = semcheck.compare(dict(case, queries=[case['queries'][qi]]), {'queries': [iq]}, [mo[k]])
+        sub = dict(case, queries=[case['queries'][qi]])
+        r = semcheck.compare(sub, {'queries': [iq]}, [mo[k]])
+        if r and 'raised RecursionError' in r and 'the model finishes normally' in r:
+            io2 = rerun_with_high_recursion_limit(sub)
+            if isinstance(io2, dict) and 'queries' in io2 and io2['queries'][0]['end'] != 'raised RecursionError':
+                iq2 = dict(io2['queries'][0], findall_outer=iq.get('findall_outer'))
+                if iq2['end'] in ('cap', 'budget'):
+                    continue            # the search is too long to be compared with the eagerly evaluated model
+                iq = iq2
+                r = semcheck.compare(sub, {'queries': [iq]}, [mo[k]])
         if r and SLD_MSG in r and iq.get('findall_outer'):
             continue
         if r:
